@@ -34,7 +34,8 @@ pub trait WriteSource {
             if let Some(s) = self.write(opt.clone()) {
                 return s;
             } else {
-                opt.max_width += opt.max_width / 2;
+                // (saturating: at u16::MAX the width is unlimited, see consume_width)
+                opt.max_width = opt.max_width.saturating_add(opt.max_width / 2);
                 opt.reset_line();
             }
         }
@@ -66,6 +67,16 @@ pub struct WriteOpt {
     /// For exprs in function calls, this will be 10.
     pub context_strength: u8,
 
+    /// True when the caller needs the result on a single line: nodes that
+    /// would fall back to a multi-line layout give up instead (the caller
+    /// would discard that layout anyway).
+    pub single_line: bool,
+
+    /// True while an enclosing parenthesised expression is being tried on
+    /// the current line: nested parenthesised expressions may then not break
+    /// the line themselves.
+    pub no_line_break: bool,
+
     /// Position within binary operators.
     /// Needed for omitting parenthesis in following expressions: `(a + b) + c`.
     pub binary_position: Position,
@@ -94,6 +105,8 @@ impl Default for WriteOpt {
             indent: 0,
             rem_width: 50,
             context_strength: 0,
+            single_line: false,
+            no_line_break: false,
             binary_position: Position::Unspecified,
             unbound_expr: false,
         }
@@ -109,7 +122,13 @@ impl WriteOpt {
         }
     }
 
-    fn consume_width(&mut self, width: u16) -> Option<()> {
+    fn consume_width(&mut self, width: usize) -> Option<()> {
+        if self.max_width == u16::MAX {
+            // unlimited: a token longer than any representable width must
+            // still be written
+            return Some(());
+        }
+        let width = u16::try_from(width).ok()?;
         self.rem_width = self.rem_width.checked_sub(width)?;
         Some(())
     }
@@ -127,7 +146,7 @@ impl WriteOpt {
         } else {
             source.as_ref().len()
         };
-        self.consume_width(width as u16)?;
+        self.consume_width(width)?;
         Some(source)
     }
 
@@ -154,6 +173,9 @@ impl<T: WriteSource> WriteSource for SeparatedExprs<'_, T> {
         // try inline
         if let Some(inline) = self.write_inline(opt.clone()) {
             return Some(inline);
+        }
+        if opt.single_line {
+            return None;
         }
 
         // one per line
@@ -182,6 +204,11 @@ impl<T: WriteSource> WriteSource for SeparatedExprs<'_, T> {
 
 impl<T: WriteSource> SeparatedExprs<'_, T> {
     fn write_inline(&self, mut opt: WriteOpt) -> Option<String> {
+        // A nested list that does not fit on this line would be laid out over
+        // several lines, which is rejected below anyway: do not compute it
+        // (doing so made formatting exponential in the nesting depth).
+        opt.single_line = true;
+
         let mut exprs = Vec::new();
         for expr in self.exprs {
             let expr = expr.write(opt.clone())?;
@@ -189,13 +216,13 @@ impl<T: WriteSource> SeparatedExprs<'_, T> {
             if expr.contains('\n') {
                 return None;
             }
-            opt.consume_width(expr.len() as u16)?;
+            opt.consume_width(expr.len())?;
 
             exprs.push(expr);
         }
 
         let separators = self.inline.len() * (exprs.len().checked_sub(1).unwrap_or_default());
-        opt.consume_width(separators as u16)?;
+        opt.consume_width(separators)?;
 
         Some(exprs.join(self.inline))
     }
